@@ -680,6 +680,9 @@ func calculateTextEditRange(content string, pos protocol.Position, ctxType Compl
 	case ContextPayee:
 		if strings.Contains(line[:byteCol], " ") {
 			startByte = payeeStart(line[:byteCol])
+		} else {
+			// still inside the date: nothing of the payee has been typed
+			startByte = byteCol
 		}
 	default:
 		return nil
